@@ -727,8 +727,10 @@ class EncodingParser(object):
 
     def handleMeta(self):
         if self.data.currentByte not in spaceCharactersBytes | frozenset([b"/"]):
-            # if we have <meta not followed by a space or a slash just keep going
-            return True
+            # <meta not followed by a space or a slash is the beginning of
+            # some other tag
+            self.data.position -= len(b"meta")
+            return self.handlePossibleStartTag()
         # We have a valid meta element we want to search for attributes
         attrNames = []  # a later attribute of the same name is ignored
         gotPragma = False
